@@ -176,7 +176,18 @@ fn script_for(term: &mut Term, frame: &[u8], plan: &Value) -> (Vec<Vec<u8>>, Str
                     if plan.get("early_status").and_then(|b| b.as_bool()).unwrap_or(false) {
                         frames.push(status_from(&empty, None).zvt_serialize());
                     }
+                    if plan.get("two_receipts").and_then(|b| b.as_bool()).unwrap_or(false) {
+                        // a status information with a receipt number that is superseded by the next one: the reservation is booked
+                        // under the LAST number
+                        let first = if r >= 9999 { 1 } else { r + 1 };
+                        frames.push(status_from(&empty, Some(first as usize)).zvt_serialize());
+                        term.next_receipt = if first >= 9999 { 1 } else { first + 1 };
+                    }
                     frames.push(status_from(plan.get("status").unwrap_or(&empty), Some(r as usize)).zvt_serialize());
+                    if plan.get("late_status").and_then(|b| b.as_bool()).unwrap_or(false) {
+                        // a further status information that does not repeat the receipt number
+                        frames.push(status_from(&empty, None).zvt_serialize());
+                    }
                     frames.push(completion());
                 }
             }
